@@ -567,6 +567,10 @@ func c12Bounds(r *c12RefReq) (lo int, hi int, contra bool) {
 	if lo > hi {
 		contra = true
 	}
+	// max 0 passes the JSON schema, but the PEX text requires max to be greater than zero: nothing is decided
+	if r.Max != nil && *r.Max == 0 {
+		contra = true
+	}
 	return
 }
 
